@@ -145,6 +145,7 @@ type orcRoundLog struct {
 	base     uint64
 	accepted []orcAccepted
 	finals   int
+	firstVal map[string]map[string]bool // "val|source|detID" -> values sent (dom_oracle_valset.go: noteSent)
 }
 
 type orcDriver struct {
@@ -160,10 +161,14 @@ type orcDriver struct {
 	noForge bool
 	sigTag  string          // appended to id-monitor sigs inside a directed scenario
 	tainted map[uint64]bool // tokens whose round sequence was hit by the known multi-message defect
+	leaving map[int]bool    // operators that opted out and are still in the oracle's validator set
+	vsN     uint64          // validator-set actions generated so far
+	wMon    string          // monitor id of the weight / counting clause in this domain
+	wTag    string          // appended to its sigs inside a directed scenario
 }
 
 func newOrcDriver(o *orc, rng *RNG) *orcDriver {
-	d := &orcDriver{orc: o, rng: rng, powers: map[int]int64{}, rounds: map[int]*orcRoundLog{}, detPool: map[int][]string{}, valPool: map[int][]string{}, tainted: map[uint64]bool{}}
+	d := &orcDriver{orc: o, rng: rng, powers: map[int]int64{}, rounds: map[int]*orcRoundLog{}, detPool: map[int][]string{}, valPool: map[int][]string{}, tainted: map[uint64]bool{}, leaving: map[int]bool{}}
 	for i, p := range o.spec.Powers {
 		d.powers[i] = p
 	}
@@ -373,8 +378,12 @@ func (d *orcDriver) sendTx(t orcTx, fiOpen map[int]uint64) string {
 	for _, m := range t.Msgs {
 		stBefore[int(m.Feeder)-1] = d.roundStatus(int(m.Feeder))
 	}
+	for fi, b := range fiOpen {
+		d.noteSent(fi, b, t)
+	}
 	cls := d.deliver(t)
 	d.nTx++
+	d.weightMonitor(t, fiOpen, cls)
 	// messages executed successfully: all of them for an ok tx, those before the failing index
 	// otherwise (they reached the aggregator although the tx's store writes were dropped)
 	nOK := 0
@@ -423,6 +432,41 @@ func (d *orcDriver) sendTx(t orcTx, fiOpen map[int]uint64) string {
 		d.checkFinal(tok, before[tok], t, fiOpen)
 	}
 	return cls
+}
+
+// weightMonitor: only validators of the current set carry weight, and each of them once per
+// (source, detID) of a round.
+func (d *orcDriver) weightMonitor(t orcTx, fiOpen map[int]uint64, cls string) {
+	mon := d.wMon
+	if mon == "" {
+		mon = "C12.weights"
+	}
+	d.env.Eval(mon)
+	departed := false
+	for _, m := range t.Msgs {
+		if _, in := d.powers[m.Creator]; !in && m.Creator < 50 {
+			departed = true
+			if cls == "ok" {
+				d.env.Violate(mon, "departed-validator-counted"+d.wTag, fmt.Sprintf("the submission of validator %d, which left the validator set, was accepted and counted (%s)", m.Creator, cls), d.hist)
+				return
+			}
+		}
+	}
+	fis := make([]int, 0, len(fiOpen))
+	for fi := range fiOpen {
+		fis = append(fis, fi)
+	}
+	sort.Ints(fis)
+	for _, fi := range fis {
+		if why, ghost := d.overcount(fi, fiOpen[fi]); why != "" {
+			sig := "detid-counted-more-than-once"
+			if departed || ghost {
+				sig = "departed-validator-counted"
+			}
+			d.env.Violate(mon, sig+d.wTag, why, d.hist)
+			return
+		}
+	}
 }
 
 func exceeds(p, t *big.Int, a, b int32) bool {
@@ -634,6 +678,7 @@ func (d *orcDriver) applyUpdates(u map[int]int64) {
 	for i, p := range u {
 		if p == 0 {
 			delete(d.powers, i)
+			delete(d.leaving, i)
 		} else {
 			d.powers[i] = p
 		}
@@ -656,6 +701,13 @@ func (d *orcDriver) block(mutProb int) {
 		vals = append(vals, v)
 	}
 	sort.Ints(vals)
+	// validators that left the set keep their keys and (half of the time) keep submitting
+	for _, v := range d.departedList() {
+		if d.rng.Bool() {
+			vals = append(vals, v)
+			d.env.Outcome("departed-validator-submits")
+		}
+	}
 	// shuffle submission order
 	for i := len(vals) - 1; i > 0; i-- {
 		j := d.rng.Intn(i + 1)
@@ -710,6 +762,9 @@ func domOracleC12(env *Env) error {
 	if env.Int("directed", 1) == 1 {
 		directedC12MultiMsg(env)
 	}
+	if env.Int("valset", 0) == 1 {
+		directedDeparted(env, "C12.weights")
+	}
 	for hi := 0; hi < n; hi++ {
 		spec := genOrcSpec(rng, false)
 		minute := rng.Chance(1, 2)
@@ -723,6 +778,11 @@ func domOracleC12(env *Env) error {
 		nb := 20 + rng.Intn(maxBlocks)
 		vsChanges := 0
 		for b := 0; b < nb; b++ {
+			if minute && env.Int("valset", 0) == 1 && rng.Chance(1, 5) {
+				if a, ok := d.vsPick(); ok {
+					o.vsDo(a)
+				}
+			}
 			d.block(18)
 			upd, halted := d.endBlock()
 			if halted {
@@ -732,6 +792,13 @@ func domOracleC12(env *Env) error {
 			if len(upd) > 0 {
 				vsChanges++
 				d.applyUpdates(upd)
+				for _, p := range upd {
+					if p == 0 {
+						env.Outcome("valset-change:removal")
+					} else {
+						env.Outcome("valset-change:power-or-addition")
+					}
+				}
 			}
 			d.idsMonitor(uint64(o.c.Header.Height), nil)
 			step := time.Duration(1+rng.Intn(5)) * time.Second
